@@ -30,6 +30,7 @@ import (
 	"errors"
 	"fmt"
 	"io"
+	"math"
 	"os"
 	"runtime"
 	"sort"
@@ -209,6 +210,10 @@ func (vr *VerifiableReader) cacheWithReader(ctx context.Context, currentDepth in
 			chunkOffset, chunkSize, chunkDigestStr, ok := fr.ChunkEntryForOffset(nr)
 			if !ok {
 				break
+			}
+			if !chunkContains(chunkOffset, chunkSize, nr) {
+				rErr = fmt.Errorf("invalid chunk (offset=%d, size=%d) of %q at %d", chunkOffset, chunkSize, name, nr)
+				return false
 			}
 			nr += chunkSize
 
@@ -445,7 +450,7 @@ func (sf *file) ReadAt(p []byte, offset int64) (int, error) {
 			upperDiscard = positive(chunkOffset + chunkSize - (offset + int64(len(p))))
 			expectedSize = chunkSize - upperDiscard - lowerDiscard
 		)
-		if chunkSize <= 0 || expectedSize <= 0 || expectedSize > int64(len(p)-nr) {
+		if !chunkContains(chunkOffset, chunkSize, offset+int64(nr)) || expectedSize <= 0 || expectedSize > int64(len(p)-nr) {
 			return 0, fmt.Errorf("invalid chunk (offset=%d, size=%d) for reading %d bytes at %d", chunkOffset, chunkSize, len(p), offset)
 		}
 
@@ -523,6 +528,9 @@ func (sf *file) GetPassthroughFd(mergeBufferSize int64, mergeWorkerCount int) (u
 		if !ok {
 			break
 		}
+		if !chunkContains(chunkOffset, chunkSize, offset) {
+			return 0, nil, fmt.Errorf("invalid chunk (offset=%d, size=%d) at %d", chunkOffset, chunkSize, offset)
+		}
 		// Check if any chunk size exceeds merge buffer size to avoid bounds out of range
 		if chunkSize > mergeBufferSize {
 			hasLargeChunk = true
@@ -588,6 +596,10 @@ func (sf *file) prefetchEntireFileSequential(entireCacheID string) error {
 		chunkOffset, chunkSize, chunkDigestStr, ok := sf.fr.ChunkEntryForOffset(offset)
 		if !ok {
 			break
+		}
+		if !chunkContains(chunkOffset, chunkSize, offset) {
+			w.Abort()
+			return fmt.Errorf("invalid chunk (offset=%d, size=%d) at %d", chunkOffset, chunkSize, offset)
 		}
 
 		id := genID(sf.id, chunkOffset, chunkSize)
@@ -846,6 +858,14 @@ func (gr *reader) verifyChunk(id uint32, p []byte, chunkDigestStr string) error 
 	}
 
 	return nil
+}
+
+// chunkContains reports whether the chunk [chunkOffset, chunkOffset+chunkSize) handed out by the
+// metadata store for the position pos is a non-empty range, free from integer overflow, that
+// contains pos. Loops walking a file chunk by chunk rely on this to advance.
+func chunkContains(chunkOffset, chunkSize, pos int64) bool {
+	return chunkSize > 0 && chunkOffset >= 0 && chunkSize <= math.MaxInt64-chunkOffset &&
+		chunkOffset <= pos && pos-chunkOffset < chunkSize
 }
 
 func genID(id uint32, offset, size int64) string {
